@@ -11,7 +11,7 @@ CONSTANTS MaxC,        \* longest main line
 VARIABLES act, hist
 
 CProj == [known |-> known, hasState |-> hasState \ {0}, canon |-> canon, hb |-> hb, hh |-> hh, hs |-> hs,
-          frozen |-> frozen, err |-> res.err]
+          frozen |-> frozen, snapDisk |-> snapDisk, recov |-> recov, err |-> res.err]
 
 MCInit == /\ \E c \in 1..MaxC, s \in 0..MaxS, sc \in Schemes, sn \in SnapModes :
                (sn => sc = "hash") /\ CInitWith(c, s, sc, sn)
